@@ -254,6 +254,12 @@ class MakeFromCollectionImpl(OmegaMixin, Contract):
     def on_python_result(self, eng, st, f, args, r, n):
         st.ghost['flatten_result'] = r.ref
 
+    def on_mode_query(self, eng, st, args, n):
+        # C13: the constructor follows the dict-order mode of the namespace its CALLER passed - not of a namespace inferred
+        # from the children later on
+        eng.oblige(st, 'III', 'dict-order-mode-is-asked-for-the-namespace-the-caller-passed',
+                   args[0] == eng.fn_entry.get('registry_namespace'), n.get('line'))
+
     def on_getattr(self, eng, st, obj, attr, res, n):
         h = st.get('handle')
         if obj.ref.eq(h.ref if isinstance(h, PyObj) else h):
